@@ -63,7 +63,8 @@ theorem degreeElevation_rows_same_curve (p t m dim : ℕ) (rows : List (List (Li
     List.map_const', List.sum_replicate_nat, hm row hrow]
 
 /-- Elevation is rejected exactly for a non-Bézier number of control points or a non-positive
-    count, otherwise the routine runs. -/
+    count, otherwise the routine runs.
+    (Unfolding lemma: the guards of the checked model evaluated (they mirror the `GeomdlException`s of `helpers.degree_elevation`).) -/
 theorem degreeElevation_rejects (p : ℕ) (num : ℤ) (P : List (List K)) :
     (degreeElevationChecked p num P = none ↔ (P.length ≠ p + 1 ∨ num ≤ 0)) ∧
     (P.length = p + 1 → 0 < num → degreeElevationChecked p num P = some (degreeElevation p num.toNat P)) := by
@@ -72,7 +73,8 @@ theorem degreeElevation_rejects (p : ℕ) (num : ℤ) (P : List (List K)) :
   · by_cases h1 : p + 1 = P.length <;> by_cases h2 : 0 < num <;> simp [h1, h2] <;> omega
   · intro h1 h2; simp [h1, h2]
 
-/-- Reduction is rejected exactly for a non-Bézier number of control points or a degree below 2. -/
+/-- Reduction is rejected exactly for a non-Bézier number of control points or a degree below 2.
+    (Unfolding lemma: the guards of the checked model evaluated.) -/
 theorem degreeReduction_rejects (n : ℕ) (Q : List (List K)) :
     (degreeReductionChecked n Q = none ↔ (Q.length ≠ n + 1 ∨ n < 2)) ∧
     (Q.length = n + 1 → 2 ≤ n → degreeReductionChecked n Q = some (degreeReduction n Q)) := by
